@@ -349,12 +349,15 @@ def correspond_layout(ctx, out, n_cases):
 
 def correspond(ctx):
     ctx.jobs = jobs(ctx.tier, ctx.seed)
+    ctx.log("%d hardware jobs" % len(ctx.jobs))
     dis, bad = run_jobs(ctx, ctx.jobs)
+    ctx.log("hardware jobs done: %d disagreements" % len(dis))
     extra = []
     quick = ctx.tier == "quick"
-    correspond_sort(ctx, extra, 300 if quick else 3000)
+    correspond_sort(ctx, extra, 200 if quick else 3000)
     correspond_fields(ctx, extra, 300 if quick else 3000)
     correspond_layout(ctx, extra, 60 if quick else 600)
+    ctx.log("python-level differential done: %d disagreements" % len(extra))
     ctx.modec = extra
     return dis + extra
 
